@@ -322,11 +322,15 @@ type Cfg struct {
 
 // RunResult mirrors the worker's reply to "run".
 type RunResult struct {
-	Stdout   string `json:"stdout"`
+	Stdout   string `json:"stdout"` // lossy when the output is not valid UTF-8; use Out()
+	Raw      []byte `json:"raw"`
 	ExitCode int    `json:"exit_code"`
 	IsExit   bool   `json:"is_exit"`
 	Stage    string `json:"stage"`
 }
+
+// Out is the exact program output (stdout followed by stderr).
+func (r RunResult) Out() string { return string(r.Raw) }
 
 var _ = bytes.MinRead
 var _ io.Reader
